@@ -35,10 +35,10 @@ pub(crate) fn any_auth() -> AuthMode {
 }
 
 // ---- reference (written from the specification text; shares no helper with acl.rs) ----------
-/// CASE Authenticated Tag subject: 0xFFFF_FFFD_xxxx_vvvv (identifier xxxx, version vvvv != 0
-/// is not required by the matching rule itself)
+/// CASE Authenticated Tag subject: 0xFFFF_FFFD_xxxx_vvvv (identifier xxxx, version vvvv); the
+/// all-zero tag value is not a tag
 fn ref_is_cat(id: u64) -> bool {
-    (id >> 32) == 0xFFFF_FFFD
+    (id >> 32) == 0xFFFF_FFFD && (id & 0xFFFF_FFFF) != 0
 }
 fn ref_subject_match(acc: &[u64; 4], s: u64) -> bool {
     let mut i = 0;
@@ -210,8 +210,8 @@ fn differential(max_subjects: u8, max_targets: u8, n_dev: usize, aux: bool) {
         vassert!(!r, "ROLE:auth-mode-must-match");
     }
     if r {
-        vcover!(c.ns >= 2);
-        vcover!(c.nt >= 2);
+        vcover!(max_subjects == 0 || c.ns >= 2);
+        vcover!(max_targets == 0 || c.nt >= 2);
         vassert!(c.granted != 0, "ROLE:proxy-view-grants-nothing");
         vassert!(!write || c.granted & 0x0e != 0, "ROLE:view-privilege-never-grants-write");
     }
@@ -219,7 +219,7 @@ fn differential(max_subjects: u8, max_targets: u8, n_dev: usize, aux: bool) {
         vcover!(true);
         vassert!(r, "ROLE:empty-subject-list-means-any-subject");
     }
-    vcover!(r && c.ns == 3);
+    vcover!(r && (max_subjects < 2 || c.ns == 3));
     vcover!(!r);
 }
 
@@ -263,13 +263,14 @@ fn c05_q_cat_matching() {
     let node = any_u64();
     let cat = any_u32();
     let mut subj = AccessorSubjects::new(node);
-    assume(node != 0 && cat != 0);
+    // an operational node id (not itself in the tag range)
+    assume(node != 0 && node < 0xFFFF_FFF0_0000_0000 && cat != 0);
     vok!(subj.add_catid(cat), "add-catid");
     let s = any_u64();
     let m = subj.matches(s);
     let acc = [node, 0xFFFF_FFFD_0000_0000u64 | cat as u64, 0, 0];
     vassert!(m == ref_subject_match(&acc, s), "ROLE:subject-matching-equals-reference");
-    if (s >> 32) == 0xFFFF_FFFD && (s >> 16) & 0xffff == (cat >> 16) as u64 && s != node {
+    if (s >> 32) == 0xFFFF_FFFD && (s & 0xffff_ffff) != 0 && (s >> 16) & 0xffff == (cat >> 16) as u64 && s != node {
         vcover!(true);
         vassert!(m == ((cat & 0xffff) as u64 >= (s & 0xffff)), "ROLE:tag-matches-iff-same-id-and-version-not-lower");
     }
